@@ -598,6 +598,9 @@ func VerifC09Units(maxDev int, extraMax map[string]int) []VerifUnit {
 }
 
 func VerifC09RunUnit(unit string) (res VerifUnitResult) {
+	if strings.HasPrefix(unit, "sweep|") {
+		return vrunSweepUnit(unit)
+	}
 	res.Unit = unit
 	res.Outcomes = map[string]int{}
 	p := strings.Split(unit, "|")
@@ -729,6 +732,9 @@ func vstripNumbers(s string) string {
 
 // VerifC09RunCase re-executes one case (replay): the case itself and, for O3, its parent.
 func VerifC09RunCase(caseID string) (violations []VerifViolation, report string, err error) {
+	if strings.HasPrefix(caseID, "sweep|") {
+		return vrunSweepCase(caseID)
+	}
 	id, err := vparseCase(caseID)
 	if err != nil {
 		return nil, "", err
